@@ -62,10 +62,12 @@ def printTy : Ty → List Tok
     sym "&" :: (if (Ty.reference t).prec ≤ t.prec && !tyNeedsParens t (Ty.reference t).prec then d else parens d)
 
 /-- the lexer reads two adjacent `?` as one `??` token -/
+def isSym (s : String) (t : Tok) : Bool := t.kind == .sym && t.text == s
+
 def mergeQ : List Tok → List Tok
-  | ⟨.sym, "?", sp⟩ :: ⟨.sym, "?", false⟩ :: rest => ⟨.sym, "??", sp⟩ :: mergeQ rest
-  | t :: rest => t :: mergeQ rest
-  | [] => []
+  | a :: b :: rest =>
+    if isSym "?" a && isSym "?" b && !b.sp then ⟨.sym, "??", a.sp⟩ :: mergeQ rest else a :: mergeQ (b :: rest)
+  | ts => ts
 
 def printAnn (resource : Bool) (t : Ty) : List Tok :=
   if resource then sym "@" :: mergeQ (printTy t) else mergeQ (printTy t)
@@ -123,9 +125,9 @@ def printExpr : Expr → List Tok
 
 /-- the lexer reads two adjacent `&` as one `&&` token -/
 def mergeAmp : List Tok → List Tok
-  | ⟨.sym, "&", sp⟩ :: ⟨.sym, "&", false⟩ :: rest => ⟨.sym, "&&", sp⟩ :: mergeAmp rest
-  | t :: rest => t :: mergeAmp rest
-  | [] => []
+  | a :: b :: rest =>
+    if isSym "&" a && isSym "&" b && !b.sp then ⟨.sym, "&&", a.sp⟩ :: mergeAmp rest else a :: mergeAmp (b :: rest)
+  | ts => ts
 
 /-- the printed form as the lexer sees it -/
 def printE (e : Expr) : List Tok := mergeAmp (printExpr e)
